@@ -22,6 +22,10 @@ def domain(ctx):
     inst = (1 + s % 0xF000, 2 + s % 0xF000, 0xFFFF, 0xFFFE)
     maj = (1 + s % 0xF0, 2 + s % 0xF0, 0xFF, 0xFE)
     mino = (s % 0xFFFF0000, 1 + s % 0xFFFF0000, 0xFFFFFFFF, 0xFFFFFFFE)
+    if ctx.thorough:
+        inst += (0, 0x8000)
+        maj += (0, 0x80)
+        mino += (0x80000000,)
     return sids, inst, maj, mino
 
 
